@@ -9,6 +9,9 @@ use std::hash::Hash;
 
 verus! {
 
+// the shipped targets are 64-bit (assumption A-64BIT, listed in the evidence): `(end - start) as usize + 1` on two i32 cannot wrap
+global size_of usize == 8;
+
 //@@EXTRACT enum traits/src/data.rs GarnishDataType
 //@@EXTRACT enum traits/src/instructions.rs Instruction
 //@@EXTRACT enum data/src/data/number.rs SimpleNumber derive=Clone,Copy
@@ -126,10 +129,17 @@ impl<T: SimpleDataType, A> SimpleGarnishData<T, A> {
 /// mirror of data/src/data/mod.rs::UNIT_INDEX (the unit value lives at address 0)
 pub const UNIT_INDEX: usize = 0;
 
-/// Stands for the Slice arm of simple.rs::collect_concatenation_indices (iterator adapters `skip/take/map/for_each`, rule R8-cut).
-/// Assumed: reads the data object only; what it appends to `items` is not specified (the walk is outside the covered cases then).
+/// Stands for the Slice-of-List sub-arm of simple.rs::collect_concatenation_indices (`Extents::new` on numbers and a `for` over a
+/// user-defined iterator, rule R8-cut). Assumed: reads the data object only; what it appends to `items` is not specified (the
+/// walk is outside the covered cases then).
 #[verifier::external_body]
 pub fn verif_collect_slice<T: SimpleDataType, A>(this: &SimpleGarnishData<T, A>, list: usize, range: usize, items: &mut Vec<usize>) -> (r: Result<(), DataError>)
+{ unimplemented!() }
+
+/// Stands for `v.iter().skip(skip).take(take).map(usize::clone).for_each(|i| items.push(i))` in the Slice-of-Concatenation
+/// sub-arm (iterator adapters, rule R8-cut; the two count expressions stay in the verified text). Assumed: appends only.
+#[verifier::external_body]
+pub fn verif_skip_take(v: &Vec<usize>, skip: usize, take: usize, items: &mut Vec<usize>)
 { unimplemented!() }
 
 /// the extents select a whole sequence: `start` is `zero()` and `end` is `max_value()` (what equality and the casts pass)
